@@ -384,7 +384,7 @@ func init() {
 			return &Scenario{Prop: "C15", Kind: "single", World: w, Bug: &BuggifySpec{Off: true}}
 		},
 		Exec:  execC15,
-		Quick: 800, Thorough: 30000,
+		Quick: 2400, Thorough: 80000,
 		NonTrivial: func(res *Result) bool { return res.Status != "crash" && res.Status != "invalid" },
 		Rule:       "one generated soil per evaluation over every parameter route (texture table x bulk-density class x C_org x stones; explicit FC/WP/PS; four transfer functions over sand/silt/clay triples with >= 5 % each and <= 85 % sand, pore volume set above the field capacity the system itself derives in a first pass) and every groundwater regime (constant, sinusoid, series that revisit levels and hold plateaus); every simulated day, after the groundwater update: ordering of WP/FC/PV per layer, threshold between WP and FC in the top layer, FC = PV for layers entirely below the table, and the history clause: a level seen before gives bitwise the parameters it gave then",
 		ReachKeys:  []string{"route.table", "route.explicit", "route.ptf1", "route.ptf2", "route.ptf3", "route.ptf4", "reach.layer-below-table", "reach.level-changed", "reach.level-revisited"},
@@ -446,7 +446,7 @@ func init() {
 			return &Scenario{Prop: "C20", Kind: "single", World: w, Bug: &BuggifySpec{Off: true}}
 		},
 		Exec:  execC20,
-		Quick: 600, Thorough: 20000,
+		Quick: 2000, Thorough: 60000,
 		NonTrivial: func(res *Result) bool {
 			return res.Status == "ok" && (res.Stats["reach.interpolated"] > 0 || res.Stats["reach.phase-pairs"] > 0 || res.Stats["reach.before-series"] > 0 || res.Stats["reach.after-series"] > 0)
 		},
